@@ -212,6 +212,29 @@ def run(ctx: Ctx):
                         ctx.violation("Taus.tau_energy", "E_tau>E_nu", "tau carries more energy than the neutrino", case)
                     elif abs(F_of(rows[i], frac, zz) - uw[i]) > 1e-9:
                         ctx.violation("Taus.tau_energy", "F(z)!=u", "wrapper value is not the inverse transform (clamped angle)", case)
+            # ---- "for all event batches": an event's sampled energy (explicit u) does not depend on which classes of angle the rest
+            # of the batch holds - sub-batches of only below-table angles, below + above, one below-table event, the one exact-zero angle,
+            # against the values the same events got in the mixed batch (which were just held against F(z) = u)
+            low_i = np.nonzero(bw < bmin)[0][:6]
+            high_i = np.nonzero(bw > bmax)[0][:4]
+            for nm_, idx_ in (("below-table angles only", low_i), ("below-table and above-table angles", np.concatenate([low_i, high_i])),
+                              ("one below-table event", low_i[1:2]), ("the exact-zero angle alone", np.array([0])),
+                              ("above-table angles only", high_i), ("one in-table event", np.nonzero((bw >= bmin) & (bw <= bmax))[0][:1])):
+                if len(idx_) == 0:
+                    continue
+                ctx.count("wrapper_sub_batches_by_angle_class")
+                try:
+                    Es_ = np.asarray(tau.tau_energy(bw[idx_].copy(), lew[idx_].copy(), uw[idx_].copy()), dtype=np.float64)
+                    bad_ = None if Es_.shape == (len(idx_),) and np.allclose(Es_, E[idx_], rtol=1e-12, atol=0) else "differs"
+                except Exception as e:  # noqa: BLE001
+                    Es_, bad_ = None, f"raises {type(e).__name__}: {str(e)[:80]}"
+                if bad_:
+                    j_ = 0 if Es_ is None or Es_.shape != (len(idx_),) else int(np.nonzero(~np.isclose(Es_, E[idx_], rtol=1e-12, atol=0))[0][0])
+                    ctx.violation("Taus.tau_energy", "value-depends-on-the-rest-of-the-batch",
+                                  f"a batch of {nm_} {bad_ if bad_ != 'differs' else 'gives an event another energy than the same event (same u) gets in a batch that also holds in-table angles'}",
+                                  {"version": v, "sub_batch": nm_, "betas": [float(x) for x in bw[idx_]], "log_e_nu": [float(x) for x in lew[idx_]], "u": [float(x) for x in uw[idx_]],
+                                   "E_tau_in_sub_batch": (None if Es_ is None else [float(x) for x in np.ravel(Es_)]), "E_tau_in_mixed_batch": [float(x) for x in E[idx_]], "first_differing": j_})
+                    break
             # ---- explicit u == internal generator for the same numbers, whatever the mix of angle classes
             seed = int(rng.integers(0, 2 ** 31))
             np.random.seed(seed)
